@@ -10,6 +10,7 @@ package main
 
 import (
 	"fmt"
+	"go/ast"
 	"go/constant"
 	"go/token"
 	"go/types"
@@ -263,6 +264,7 @@ type Region struct {
 	// from memory that the loop (or code called from it) may assign is not what memory holds now. Non-pointer
 	// cells of observed objects that the prologue reads lazily are named old(...) and forgotten at Start.
 	StalePrologue bool
+	storedFields  map[string]bool
 	// Prepare runs before parameters are bound (to create objects for them).
 	Prepare  func(r *Run)
 	lastObjs map[string]*Obj
@@ -872,6 +874,71 @@ func isInt(t types.Type) bool {
 	return ok && b.Info()&types.IsInteger != 0
 }
 
+// assignable: may the cell at this path change after its object was made? A field is taken to be fixed when it
+// is unexported and no function of the region's package stores to a field of that name except through a fresh
+// allocation (a constructor's composite literal): the lexer's src. Exported fields (Context) belong to the user.
+func (r *Run) assignable(path string) bool {
+	name := strings.TrimPrefix(path, ".")
+	if i := strings.IndexAny(name, ".["); i >= 0 {
+		name = name[:i]
+	}
+	if name == "" || ast.IsExported(name) {
+		return true
+	}
+	if r.reg.storedFields == nil {
+		r.reg.storedFields = map[string]bool{}
+		if pkg := r.reg.Fn.Pkg; pkg != nil {
+			var visit func(f *ssa.Function)
+			seen := map[*ssa.Function]bool{}
+			visit = func(f *ssa.Function) {
+				if f == nil || seen[f] {
+					return
+				}
+				seen[f] = true
+				for _, b := range f.Blocks {
+					for _, in := range b.Instrs {
+						st, ok := in.(*ssa.Store)
+						if !ok {
+							continue
+						}
+						var a ssa.Value = st.Addr
+						for {
+							if ia, ok := a.(*ssa.IndexAddr); ok {
+								a = ia.X
+								continue
+							}
+							break
+						}
+						if fa, ok := a.(*ssa.FieldAddr); ok {
+							if al, isAlloc := fa.X.(*ssa.Alloc); isAlloc && !isParamSpill(al) {
+								continue
+							}
+							r.reg.storedFields[fieldVar(fa).Name()] = true
+						}
+					}
+				}
+				for _, an := range f.AnonFuncs {
+					visit(an)
+				}
+			}
+			for _, m := range pkg.Members {
+				switch x := m.(type) {
+				case *ssa.Function:
+					visit(x)
+				case *ssa.Type:
+					for _, T := range []types.Type{x.Type(), types.NewPointer(x.Type())} {
+						ms := pkg.Prog.MethodSets.MethodSet(T)
+						for i := 0; i < ms.Len(); i++ {
+							visit(pkg.Prog.MethodValue(ms.At(i)))
+						}
+					}
+				}
+			}
+		}
+	}
+	return r.reg.storedFields[name]
+}
+
 func (r *Run) isGlobal(o *Obj) bool {
 	for _, g := range r.reg.Globals {
 		if g == o {
@@ -895,7 +962,7 @@ func (r *Run) lazy(o *Obj, path string, t types.Type) Val {
 		}
 		return vs
 	}
-	if r.reg.StalePrologue && r.reg.Start != nil && !r.entered && !o.Local && !r.isGlobal(o) {
+	if r.reg.StalePrologue && r.reg.Start != nil && !r.entered && !o.Local && !r.isGlobal(o) && r.assignable(path) {
 		// (package-level tables are read-only after init: R17.1)
 		if _, isPtr := t.Underlying().(*types.Pointer); !isPtr {
 			r.stale = append(r.stale, staleCell{o, path})
